@@ -694,6 +694,44 @@ def check_ctor_purity(ctx: Ctx):
         ctx.undecided("R15.3.floor", None, None, "floor:R15.3c", f"{n} constructors analysed, confirmed floor is 20")
 
 
+def check_kernel_purity(ctx: Ctx):
+    """R15.8 (kernels): the functions registered as metric kernels (and the helpers they call) do not write in place
+    into the masks they receive.  They are called through the registry (an indirect call the effect analysis of
+    R15.8 cannot follow), several metrics are computed on one pair of masks, and the global metrics share one
+    binarised copy: a kernel that modifies its argument changes what the next metric sees."""
+    from .aliasflow import AliasFlow
+    from .common import metric_registry
+
+    prog = ctx.prog
+    af = prog.__dict__.get("_aliasflow")
+    if af is None:
+        af = prog.__dict__["_aliasflow"] = AliasFlow(prog)
+    n = 0
+    for member, rec in sorted(metric_registry(prog).items()):
+        k = rec.get("kernel")
+        if k is None:
+            continue
+        n += 1
+        # the kernel itself and the package functions it calls (wrapper -> core function)
+        fam, work = {k.qual: k}, [k]
+        for _ in range(2):
+            nxt = []
+            for g in work:
+                for c in prog.calls_in(g):
+                    for h in prog.resolve_call(g, c):
+                        if isinstance(h, Func) and h.qual not in fam and h.module.rel.startswith("metrics"):
+                            fam[h.qual] = h
+                            nxt.append(h)
+            work = nxt
+        for q, g in sorted(fam.items()):
+            wr = af.written.get(q, {})
+            names = [p.name for p in g.call_params]
+            for i, root in sorted(wr.items()):
+                ctx.violated("R15.8", g, g.node, f"Metric.{member}:{q}:{names[i] if i < len(names) else i}:in-place", "a metric kernel does not write into the mask it is given", {"written_at": root[0] if root else None})
+    if n:
+        ctx.ok("R15.8", None, None, "metric-kernels:pure", f"{n} registered kernels: none writes into a mask it receives", None, nontrivial=False)
+
+
 def check_shared_defaults(ctx: Ctx):
     """R15.3 (shared defaults): a default argument that is an object - a list / dict / set literal or something
     built by a call, made once when the function is defined - is not modified in place, neither directly nor
@@ -1064,6 +1102,7 @@ def check(ctx: Ctx):
     _run_rule(ctx, "check_state_through_callees", check_state_through_callees)
     _run_rule(ctx, "check_ctor_purity", check_ctor_purity)
     _run_rule(ctx, "check_shared_defaults", check_shared_defaults)
+    _run_rule(ctx, "check_kernel_purity", check_kernel_purity)
     _run_rule(ctx, "R15.9", check_metric_call_history)
     _guard(ctx, "R15.8", check_param_aliasing)
 
